@@ -1331,7 +1331,13 @@ std::ostream& expression_t::print(std::ostream& os, bool old) const
         get(1).print(os << '[', old) << ']';
         break;
 
-    case UNARY_MINUS: embrace(os << '-', old, get(0), precedence); break;
+    case UNARY_MINUS:
+        // a negative literal (the parser produces one for -2147483648) must not fuse with the sign into "--"
+        if (get(0).get_kind() == CONSTANT && get(0).get_type().is_integer() && get(0).get_value() < 0)
+            get(0).print(os << "-(", old) << ')';
+        else
+            embrace(os << '-', old, get(0), precedence);
+        break;
 
     case POST_DECREMENT:
     case POST_INCREMENT: embrace(os, old, get(0), precedence) << (get_kind() == POST_DECREMENT ? "--" : "++"); break;
